@@ -397,7 +397,7 @@ def main(tier, seed, replay=None):
             t_correspondence(rep, rnd, 300 if tier != "thorough" else 1500)
     oracle(rep, rnd, tier)
     if tier == "thorough":
-        ok, out = core.run(["coqchk", "-silent", "-o"] + core.coq_flags()[:3] + ["Ckl.Props.C17"], 1500, cwd=core.COQ)
+        ok, out = core.run(["coqchk", "-silent", "-o"] + core.coq_flags()[:3] + ["Ckl.Props.C17"], 3000, cwd=core.COQ)
         rep.checker_cmds.append("coqchk -o -Q . Ckl Ckl.Props.C17")
         rep.oblige("coqchk re-checks Props/C17.vo and its dependencies", ok == 0, out[-3000:])
         rep.cov["coqchk_output_tail"] = out[-1500:]
